@@ -25,7 +25,9 @@ def _fr(fr):
     return f"{fr.filename.split('/norminette/')[-1]}::{fr.name}::{' '.join((fr.line or '').split())[:70]}"
 
 
-def site_of(tb, repo="/repo/"):
+def site_of(tb, repo=None):
+    from symx import REPO
+    repo = repo or (REPO.rstrip("/") + "/")
     """innermost /repo frame; if that is a shared helper (not a rule module), also the innermost rule frame
     that called it -- the defect site is the caller that passes the bad index / missing token"""
     frames = [f for f in traceback.extract_tb(tb) if repo in f.filename]
@@ -41,7 +43,9 @@ def site_of(tb, repo="/repo/"):
     return s
 
 
-def hang_site(tb, repo="/repo/"):
+def hang_site(tb, repo=None):
+    from symx import REPO
+    repo = repo or (REPO.rstrip("/") + "/")
     """where a run was interrupted by the alarm: the interruption point inside a loop is arbitrary (helper calls,
     different lines of the loop body), so only the innermost RULE function (file::function) is kept; for a loop
     outside the rule layer the innermost file"""
@@ -57,8 +61,9 @@ def hang_site(tb, repo="/repo/"):
 def serve():
     sys.dont_write_bytecode = True
     sys.path.insert(0, os.path.dirname(os.path.dirname(os.path.abspath(__file__))))
-    if "/repo" not in sys.path:
-        sys.path.insert(0, "/repo")
+    from symx import REPO
+    if REPO not in sys.path:
+        sys.path.insert(0, REPO)
     out = os.fdopen(os.dup(1), "w")
     devnull = open(os.devnull, "w")
     os.dup2(devnull.fileno(), 1)
